@@ -170,7 +170,7 @@ def machine_vars_part(C, store_kind):
                             I.eq(kw["value"], value), I.eq(kw["prev_value"], prev)))
     C.helpers["posted_change"] = posted_change
     C.trace_helpers = set(getattr(C, "trace_helpers", ())) | {"disk_entry_is", "disk_lacks", "n_posts", "posted_change",
-                                                              "disk_matches_store", "n_saves", "reloaded"}
+                                                              "disk_matches_store", "n_saves", "reloaded", "expiry_kept"}
     ENT = "self.machine_vars[name]"
     FLAG = "self.machine.config['mpf']['save_machine_vars_to_disk']"
     C.fn("MachineVariables.configure_machine_var", params=dict(name=Str, persist=Bool, expire_secs=Opt(Int)),
@@ -358,15 +358,41 @@ def bounded_part(C, _dget, last_saved, ENTRY_FIELDS):
             else:
                 out.append(z3.And(loadable, I.eq(_dget(I, ent, "value"), _dget(I, settings, "value")),
                                   I.truth(_dget(I, ent, "persist"))))
+
         return VBool(z3.And(*out) if out else z3.BoolVal(True))
     C.helpers["reloaded"] = reloaded
+
+    def expiry_kept(I):
+        """a restored variable keeps the expiry time it was stored with: the next write puts the same expiry on disk
+        again, so a LATER boot after that time still drops the variable ("unless their expiry time has passed")"""
+        ev = events_named(I, "get_data")
+        if len(ev) != 1:
+            return VBool(False)
+        this = I.frames[0].env["self"].ref
+        store = I.container(I.force(I.read_field(this, "machine_vars")).ref)
+        out = []
+        for k, settings in I.container(I.force(ev[0].args["data"]).ref).entries:
+            settings = I.force(settings)
+            ent = store.get(k)
+            if ent is None or settings.tag != "dict":
+                continue
+            exp = _dget(I, settings, "expire")
+            if exp is None:
+                continue
+            timeout = _dget(I, ent, "timeout")
+            has_exp = z3.And(z3.Not(I.is_none(exp)), z3.Not(I.eq(exp, VInt(0))))
+            out.append(z3.Implies(has_exp, I.eq(timeout, exp) if timeout is not None else z3.BoolVal(False)))
+        return VBool(z3.And(*out) if out else z3.BoolVal(True))
+    C.helpers["expiry_kept"] = expiry_kept
     C.fn("MachineVariables._load_initial_machine_vars", inline=True)
     C.fn("MachineVariables.load_machine_vars", params=dict(machine_var_data_manager=ObjS("DataStore"), current_time=Real),
          requires=[("boot: the store is empty", "len(self.machine_vars) == 0"),
                    ("no variables are declared in the machine config (their persist flag would override)",
                     "'machine_vars' not in self.machine.config")],
          ensures=[("P3: persisted variables reload with equal values unless their expiry time has passed; expired "
-                   "or malformed entries are not restored", "reloaded(current_time)")],
+                   "or malformed entries are not restored", "reloaded(current_time)"),
+                  ("P3b: a reloaded variable keeps the expiry time it was stored with (otherwise the next write stores it "
+                   "without one and it survives every later boot)", "expiry_kept()")],
          modifies=["self.machine_vars.**", "self.machine_var_data_manager"], raises={}, bounded=B)
 
 
